@@ -40,13 +40,26 @@ RULE = ("every class of the live table (core: saml, samlp, md, xmldsig, xmlenc, 
         "ISO-8859-1 / US-ASCII / windows-1252, with no, a bare or a matching XML declaration); entity-declaring documents "
         "(12 shapes incl. white-space variants, ATTLIST defaults) x every input form x padding before the DOCTYPE x entry "
         "point (6 classes completely, every core class once, saml2.extension_element_from_string). "
+        "Round 3: for every core class with schema attributes or children one instance and one document whose foreign "
+        "attributes / elements are LOOK-ALIKES of the schema names (alike_names: the schema local name x {unqualified, "
+        "the namespace of the carrying element, another live namespace, a vendor namespace, a namespace one character / "
+        "case away, xml:} x {exact, lower, upper, first letter swapped, suffixed, unrelated local name}), next to the "
+        "schema attributes themselves, also one level down and inside foreign elements. "
         "non-trivial = distinct (kind, class, outcome, shape features: foreign elements/attributes, repeated singleton, "
         "character classes)")
 TRUSTED = ["independent reader: xml.etree.ElementTree (expat) applied to the library's output",
            "document renderer and object/tree abstraction in harness/c12.py (renderer self-checked against the reader)",
            "translator harness/classtables.py (fail-closed)", "sparse->dense object adaptor C12.Corr.dense",
            "schema order oracle: src/saml2/data/schemas/*.xsd flattened to ranks by harness/c12.py (Schemas / merge_ranks; "
-           "over-approximates: repeatable groups and names met twice share a rank)"]
+           "over-approximates: repeatable groups and names met twice share a rank)",
+           "source-to-Gallina translator v2 harness/py2coq2.py + coq/theories/Base/Py2.v (its trusted base: "
+           "notes/translator_v2.md; value semantics, no aliasing) for the functions re-translated on every run: "
+           "saml2/__init__.py create_class_from_element_tree, ExtensionContainer._convert_element_attribute_to_member, "
+           "SamlBase._convert_element_attribute_to_member, SamlBase._add_members_to_element_tree, "
+           "ExtensionElement.transfer_to_element_tree; saml2/saml.py "
+           "AttributeValueBase.set_type, AttributeValueBase.get_type (theorems c12_source2_*; encodings enc_* / clark in "
+           "C12/Source2.v; external calls - constructors, methods acting on another object, self.__class__.c_attributes - "
+           "are universally quantified extra arguments)"]
 ASSUMPTIONS = ["character data before the first child is the element's text; tails (character data after a child) are "
                "not read by the code and not part of the tree model",
                "what ElementTree.tostring writes and expat reads back is the identity on trees except: keys spelled "
@@ -81,15 +94,77 @@ def regenerate_tables(ctx):
     # fails afterwards: then the correspondence still runs and names the failing input
     info["vocabulary"] = write_vocab()
     info["schema_order_oracle"] = write_schema()
+    # translator v2: the decision functions as they read NOW -> gen/C12Src2.v (C12/Source2.v proves them equal to the model)
+    from harness import py2coq2
+    src2 = py2coq2.regenerate(SRC2_OUT, source2_items())
     common.coq_make(["theories/C12/Corr.vo"], jobs=4)
     # obligations discharged by vm_compute in C12/Live.v: EVERY live class parses and serialises consistently
     # (live_table_ok: wf_class) and the order table of every class with a content model in the shipped XML Schema
     # files never contradicts that model (live_xsd_ok); the driver zeroes them when the build breaks
     n = info["classes"] + info["schema_order_oracle"]["with_content_model"]
-    info.update({"obligations": n, "discharged": n,
+    info.update({"obligations": n + src2["obligations"], "discharged": n + src2["discharged"],
                  "unit": "live classes checked: wf_class, no exception list (C12/Live.v live_table_ok) + classes whose "
-                         "c_child_order is checked against the XSD content model (live_xsd_ok)"})
+                         "c_child_order is checked against the XSD content model (live_xsd_ok) + functions re-translated "
+                         "from the source text (gen/C12Src2.v, theorems c12_source2_*)",
+                 "source2": src2, "untranslatable": list(src2["untranslatable"]),
+                 "changed": bool(info.get("changed")) or bool(src2.get("changed"))})
     return info
+
+
+# ---------------------------------------------------------------------------- source tie (translator v2)
+SRC2_OUT = os.path.join(common.GEN, "C12Src2.v")
+
+
+def source2_items():
+    """What translator v2 (harness/py2coq2.py) re-translates from the source TEXT on every run; C12/Source2.v proves
+    each definition equal to the model function it mirrors, for all inputs.  External calls (constructors, the
+    methods that work on ANOTHER object, class attributes reached through self.__class__) are extra parameters of the
+    Gallina definitions and Section variables of the theorems.  The module constants are read from the live module."""
+    from harness.py2coq2 import cstr
+    from saml2 import saml
+
+    init = os.path.join(env.SRC, "saml2", "__init__.py")
+    samlpy = os.path.join(env.SRC, "saml2", "saml.py")
+    consts = {"XSI_NIL": "(PStr %s)" % cstr(saml.XSI_NIL), "XSI_TYPE": "(PStr %s)" % cstr(saml.XSI_TYPE),
+              "XS_NAMESPACE": "(PStr %s)" % cstr(saml.XS_NAMESPACE)}
+    return [
+        # root tag check; target_class() and target.harvest_element_tree(tree) are external
+        (init, "create_class_from_element_tree", {
+            "name": "src2_create_class_from_element_tree", "params": ["target_class", "tree", "namespace", "tag"],
+            "extra_params": [("construct", "pyval -> pyval"), ("harvest", "pyval -> pyval -> pyval")],
+            "calls": {"target_class": lambda a: "(construct v_target_class)",
+                      "target.harvest_element_tree": lambda a: "(harvest v_target %s)" % a[0]}}),
+        (init, "ExtensionContainer._convert_element_attribute_to_member", {
+            "name": "src2_ec_convert_attribute", "params": ["self", "attribute", "value"], "returns_state": ["self"]}),
+        (init, "SamlBase._convert_element_attribute_to_member", {
+            "name": "src2_convert_attribute", "params": ["self", "attribute", "value"], "returns_state": ["self"],
+            "extra_params": [("c_attributes", "pyval"), ("ec_convert", "pyval -> pyval -> pyval -> pyval")],
+            "calls": {"self.__class__.c_attributes": "c_attributes",
+                      "ExtensionContainer._convert_element_attribute_to_member":
+                          lambda a: "(ec_convert %s %s %s)" % tuple(a)}}),
+        (samlpy, "AttributeValueBase.set_type", {
+            "name": "src2_set_type", "params": ["self", "typ"], "returns_state": ["self"], "globals": consts,
+            "attr_errors": True}),
+        (samlpy, "AttributeValueBase.get_type", {
+            "name": "src2_get_type", "params": ["self"], "globals": consts, "attr_errors": True}),
+        # ElementTree.Element(""), iter() and child.become_child_element_of(element_tree) are external
+        (init, "ExtensionElement.transfer_to_element_tree", {
+            "name": "src2_transfer_to_element_tree", "params": ["self"],
+            "extra_params": [("new_element", "pyval -> pyval"), ("become_child", "pyval -> pyval -> pyval")],
+            "calls": {"ElementTree.Element": lambda a: "(new_element %s)" % a[0], "iter": lambda a: a[0],
+                      "child.become_child_element_of": lambda a: "(become_child v_child %s)" % a[0]}}),
+        # the class's c_attributes / child order and everything that acts on ANOTHER object are external; the tree is
+        # the state (tree.attrib[...] = ... rebinds it)
+        (init, "SamlBase._add_members_to_element_tree", {
+            "name": "src2_add_members", "params": ["self", "tree"], "returns_state": ["tree"],
+            "extra_params": [("c_attributes", "pyval"), ("child_order", "pyval -> pyval"),
+                             ("become_child", "pyval -> pyval -> pyval"), ("ec_add", "pyval -> pyval -> pyval")],
+            "calls": {"self.__class__.c_attributes.items": lambda a: "(p2_items c_attributes)", "iter": lambda a: a[0],
+                      "self._get_all_c_children_with_order": lambda a: "(child_order v_self)",
+                      "instance.become_child_element_of": lambda a: "(become_child v_instance %s)" % a[0],
+                      "member.become_child_element_of": lambda a: "(become_child v_member %s)" % a[0],
+                      "ExtensionContainer._add_members_to_element_tree": lambda a: "(ec_add %s %s)" % tuple(a)}}),
+    ]
 
 
 # ---------------------------------------------------------------------------- vocabulary (compact case files)
@@ -126,6 +201,14 @@ def vocab():
             words += [r.tag[1]] + [q[1] for q, _m, _k, _l in r.children] + [m for _q, m, _k, _l in r.children]
             words += [q[1] for q, _m, _t, _r in r.attributes] + [m for _q, m, _t, _r in r.attributes]
             words += [v for _m, v in r.parse_defaults]
+        # round 3: the look-alike names (alike_names) - other-case spellings of the schema names and of the live
+        # namespaces, the fixed value prefixes
+        words += ["x-", "v-", "note", "Extra", "x-1"]
+        for n in sorted(ns_ids()):
+            words += [n, n.upper(), n.lower()]
+        for r in t.classes:
+            for w in [q[1] for q, _m, _k, _l in r.children] + [q[1] for q, _m, _t, _r in r.attributes]:
+                words += [w.lower(), w.upper(), w[:1].swapcase() + w[1:]]
         seen, out = set(), []
         for w in words:
             if w and w not in seen:
@@ -500,6 +583,162 @@ def rand_ee(rng, depth, hostile, rec=None, cr=False):
     return {"ns": q[0], "tag": q[1], "a": rand_attr_dict(rng, None, rng.choice([0, 0, 1, 2]), hostile), "k": kids, "x": text}
 
 
+# ---------------------------------------------------------------------------- look-alike names (round 3)
+# A foreign name is foreign because its EXPANDED name (namespace, local name) is not one the class registers -
+# however close it comes.  foreign_name() above only draws from pools that are far away from the schema names
+# (vendor namespaces, made-up local names); the neighbourhood of the names a class DOES know was never visited:
+# the same local name in another namespace (in particular the namespace of the element that carries it:
+# prefix:Attr on prefix:Element), unqualified where the schema name is qualified, a namespace that differs in one
+# character or in case, the local name in another case or with a suffix, and an unknown local name in the class's
+# own namespace.  alike_names() enumerates that neighbourhood for one class: (known name) x NS_VARIANTS x
+# LOCAL_VARIANTS minus the names the class knows.
+NS_VARIANTS = ["none", "own", "live", "foreign", "near", "xml"]
+LOCAL_VARIANTS = ["exact", "lower", "upper", "swap1", "suffix", "other"]
+AV_MANAGED = [(XSI, "type"), (XSI, "nil")]      # the two attributes AttributeValueBase reads itself
+
+
+def _local_variant(rng, local, v):
+    if v == "exact":
+        return local
+    if v == "lower":
+        return local.lower()
+    if v == "upper":
+        return local.upper()
+    if v == "swap1":
+        return local[:1].swapcase() + local[1:]
+    if v == "suffix":
+        return local + rng.choice(["x", "_", "2", ".a", "-b"])
+    return rng.choice(["note", "Extra", "x-1"])
+
+
+def _ns_variant(rng, own, v, avoid=()):
+    if v == "none":
+        return None
+    if v == "own":
+        return own
+    if v == "live":                    # a namespace some OTHER class of the library lives in
+        return rng.choice([n for n in sorted(ns_ids()) if n != own and n != XML_NS and n not in avoid])
+    if v == "foreign":
+        return rng.choice(FOREIGN_NS[:4])
+    if v == "xml":
+        return XML_NS
+    if not own:
+        return None
+    return rng.choice([n for n in (own + "x", own + "/", own[:-1], own.upper(), own.lower() if own != own.lower() else own + "#")
+                       if n and n != own])
+
+
+def alike_names(rng, rec, element, own=None, known=None):
+    """[(expanded name, 'ns-variant/local-variant')], shuffled: the neighbourhood of the child tags (element=True) or
+    attribute names of rec.  own: the namespace of the element that carries the name (default: the class's)."""
+    own = rec.tag[0] if own is None else own
+    if known is None:
+        known = [tuple(t) for t, _m, _k, _l in rec.children] if element else [tuple(n) for n, _m, _t, _r in rec.attributes]
+    av = rec.kind == "attrvalue" and not element
+    base = list(known) + (AV_MANAGED if av else [])
+    if not base:
+        base = [(own, "Value")]          # a class without schema names of that sort: only own-namespace strangers
+    avoid = (XSI, XS) if rec.kind == "attrvalue" else ()
+    out, seen = [], set(known) | set(AV_MANAGED if av else [])
+    for ns0, local in base:
+        for nv in NS_VARIANTS:
+            if nv == "xml" and element:
+                continue
+            for lv in LOCAL_VARIANTS:
+                ns = _ns_variant(rng, own, nv, avoid)
+                if nv == "near" and ns0 not in (None, own) and rng.random() < 0.5:
+                    ns = ns0 + "x"        # next to the namespace the schema name is in (xsi:type, xml:lang)
+                q = (ns, _local_variant(rng, local, lv))
+                if q in seen or (ns is None and nv != "none") or (not element and ns in avoid):
+                    continue
+                seen.add(q)
+                out.append((q, "%s/%s" % (nv, lv)))
+    rng.shuffle(out)
+    out.sort(key=lambda x: not x[1].endswith("/exact"))    # stable: the closest neighbours first
+    return out
+
+
+def pick_alike(rng, rec, element, n, own=None):
+    """n names of the neighbourhood: at least a third of them with the EXACT local name of a schema name."""
+    names = alike_names(rng, rec, element, own)
+    exact = [x for x in names if x[1].endswith("/exact")]
+    rest = [x for x in names if not x[1].endswith("/exact")]
+    k = min(len(exact), max(1, (n + 2) // 3))
+    got = exact[:k] + rest[:max(0, n - k)]
+    rng.shuffle(got)
+    return got
+
+
+def alike_ee(rng, rec, q):
+    """A foreign element with a look-alike name; inside it the class's OWN names stay foreign too."""
+    e = {"ns": q[0], "tag": q[1], "a": [], "k": [], "x": rand_text(rng, False) if rng.random() < 0.6 else None}
+    if rng.random() < 0.4:
+        for n, _m, _t, _r in rng.sample(rec.attributes, min(len(rec.attributes), 2)):
+            e["a"].append([list(n), rand_text(rng, False)])
+    if rng.random() < 0.3 and rec.children:
+        t = rng.choice(rec.children)[0]
+        e["k"].append({"ns": t[0], "tag": t[1], "a": [], "k": [], "x": None})
+    return e
+
+
+def gen_alike_spec(rng, idx, depth, kinds):
+    """An instance whose extension attributes / elements are look-alikes of its schema names (values differ from
+    the values of the schema attributes, so an overwrite shows), the same one level down."""
+    rec = tab().classes[idx]
+    if rec.kind == "attrvalue":
+        spec = gen_av_spec(rng, idx, "rand", False)
+        spec["xa"], spec["xa_first"] = [], True
+    else:
+        spec = gen_spec(rng, idx, 0, "rand", [99])
+        dflt = {m for m, _v in rec.parse_defaults}
+        spec["a"] = [[m, "v-" + m] for n, m, _t, req in rec.attributes if req or m in dflt or rng.random() < 0.6]
+        spec["xa"], spec["e"], spec["k"] = [], [], []
+        if spec["x"] == "":
+            spec["x"] = None         # text "" is read back as None: keep the instance one the property speaks about
+        if depth > 0:
+            for _tag, member, k, lst in rec.children:
+                if k is not None and rng.random() < 0.35 and len(spec["k"]) < 1:
+                    spec["k"].append([member, [gen_alike_spec(rng, k, depth - 1, kinds)]])
+        for q, kind in pick_alike(rng, rec, True, rng.choice([1, 1, 2])):
+            spec["e"].append(alike_ee(rng, rec, q))
+            kinds.append("elem " + kind)
+    for q, kind in pick_alike(rng, rec, False, rng.choice([2, 3, 4])):
+        spec["xa"].append([list(q), "x-" + rand_text(rng, False)])
+        kinds.append("attr " + kind)
+    return spec
+
+
+def gen_alike_doc(rng, idx, depth, kinds, tag=None):
+    """A document for the class in which look-alikes of the schema names stand NEXT to the schema names."""
+    rec = tab().classes[idx]
+    node = {"g": list(tag or rec.tag), "a": [], "x": "", "k": []}
+    attrs = [[list(n), "v-" + m] for n, m, _t, req in rec.attributes if rng.random() < (0.85 if req else 0.6)]
+    if rec.kind == "attrvalue":
+        node = gen_av_doc(rng, idx, node, attrs, False, ext=False)
+        attrs = node["a"]
+    for q, kind in pick_alike(rng, rec, False, rng.choice([2, 3, 4]), own=node["g"][0]):
+        if list(q) not in [a[0] for a in attrs]:
+            attrs.append([list(q), "x-" + rand_text(rng, False)])
+            kinds.append("attr " + kind)
+    rng.shuffle(attrs)
+    node["a"] = attrs
+    if rec.kind == "attrvalue":
+        return node
+    kids = []
+    if depth > 0:
+        for t, _m, k, lst in rec.children:
+            if k is not None and rng.random() < 0.35 and len(kids) < 1:
+                kids.append(gen_alike_doc(rng, k, depth - 1, kinds, tag=t))
+    for q, kind in pick_alike(rng, rec, True, rng.choice([1, 1, 2]), own=node["g"][0]):
+        kids.append(tree_of_ee(alike_ee(rng, rec, q)))
+        kinds.append("elem " + kind)
+    rng.shuffle(kids)
+    node["k"] = kids
+    if not rec.children and rng.random() < 0.5:
+        node["x"] = rand_text(rng, False)
+    return node
+
+
 # ---------------------------------------------------------------------------- instance specifications
 def gen_spec(rng, idx, depth, mode, budget):
     """mode: 'min' (required attributes only), 'rand', 'hostile' (foreign content, hostile characters), 'cr'."""
@@ -612,6 +851,9 @@ def build(spec):
     if spec.get("av"):
         ext = [build_ee(e) for e in spec["e"]]
         inst = cls(extension_elements=ext or None)
+        if spec.get("xa_first"):     # foreign attributes set before the type: the dict order a parse produces
+            for q, v in spec["xa"]:
+                inst.extension_attributes[clark(q)] = v
         if spec["typ"] is not None:
             inst.set_type(spec["typ"])
         if spec["x"] is not None:
@@ -646,6 +888,20 @@ def build(spec):
 # ---------------------------------------------------------------------------- abstraction
 class AbstractionError(Exception):
     pass
+
+
+class LibraryFailure(Exception):
+    """to_string() raised on an instance the library built or parsed itself, or wrote something no XML reader
+    accepts: the instance did not survive serialisation (a failing case, not a harness error)."""
+
+
+def to_string(o, what):
+    try:
+        return o.to_string()
+    except RecursionError:
+        raise
+    except Exception as e:  # noqa: BLE001
+        raise LibraryFailure("to_string() of %s raised %s: %s" % (what, type(e).__name__, e))
 
 
 def clark(q):
@@ -753,13 +1009,13 @@ def chain(idx, r1):
     out = {"t2": None, "r2": {"k": "none"}, "same23": False, "s2": None}
     if r1[0] != "ok":
         return out
-    s2 = r1[2].to_string()
+    s2 = to_string(r1[2], "a parsed instance")
     out["s2"] = s2
     out["t2"] = read(s2)
     r2 = lib_parse(idx, s2)
     out["r2"] = pres(r2)
     if r2[0] == "ok":
-        out["same23"] = r2[2].to_string() == s2
+        out["same23"] = to_string(r2[2], "a re-parsed instance") == s2
     return out
 
 
@@ -1279,6 +1535,29 @@ def generate_round2(ctx, cases):
             for _ in range(4 if ctx.thorough else 1):
                 what, tpl = rng.choice(ENTITY_DOCS)
                 entity(i, what, tpl, rand_form(rng))
+    generate_round3(ctx, cases, random.Random(rng.getrandbits(64)))
+
+
+def generate_round3(ctx, cases, rng):
+    """Dimension added after seeded change C12-6 was missed: foreign names in the NEIGHBOURHOOD of the schema names
+    (alike_names).  Own PRNG, drawn after everything else: the earlier cases are what they were."""
+    t = tab()
+    for i, r in enumerate(t.classes):
+        if not (r.attributes or r.children or r.kind == "attrvalue"):
+            continue
+        reps = (3 if ctx.thorough else 1) * (3 if r.kind == "attrvalue" else 1)
+        for _ in range(reps):
+            if (r.core and (r.attributes or r.kind == "attrvalue" or rng.random() < 0.5)) or ctx.thorough or rng.random() < 0.06:
+                kinds = []
+                spec = gen_alike_spec(rng, i, 1 if ctx.thorough else 0, kinds)
+                cases.append({"kind": "rt", "c": i, "mode": "alike", "spec": spec, "alike": kinds})
+            if r.core or ctx.thorough or rng.random() < 0.12:
+                kinds = []
+                tree = gen_alike_doc(rng, i, 1, kinds)
+                case = {"kind": "doc", "c": i, "tree": tree, "rseed": rng.getrandbits(32), "root": "own", "alike": kinds}
+                if rng.random() < 0.5:
+                    case["form"] = rand_form(rng)
+                cases.append(case)
 
 
 def observe(case):
@@ -1286,6 +1565,12 @@ def observe(case):
         return _observe(case)
     except AbstractionError as e:
         return {"error": "abstraction: %s" % e}
+    except LibraryFailure as e:
+        return {"error": str(e)}
+    except ET.ParseError as e:
+        # what to_string() wrote is not well-formed XML (the independent reader refuses it): the instance did not
+        # survive serialisation -> (IMPL false), a spec failure with this case as replay input
+        return {"error": "library output not well-formed: %s" % e}
 
 
 def _observe(case):
@@ -1298,7 +1583,7 @@ def _observe(case):
         except (ValueError, KeyError) as e:       # AttributeValueBase.set_text refuses the value
             return {"skip": "build:%s" % type(e).__name__}
         o_in = abs_obj(inst)
-        s1 = inst.to_string()
+        s1 = to_string(inst, "a built instance")
         t1 = read(s1)
         r1 = lib_parse(idx, s1)
         ch = chain(idx, r1)
@@ -1482,9 +1767,9 @@ def nontrivial(case, obs):
         feats = sorted(_obj_feats(obs["o_in"]))
         if case["mode"] == "min" and not feats:
             return None
-        return ("rt", name, out, tuple(feats))
+        return ("rt", name, out, tuple(feats) + tuple(sorted(set(case.get("alike", ())))))
     feats = sorted(_tree_feats(case["tree"]))
-    return ("doc", name, case.get("root"), out, tuple(feats))
+    return ("doc", name, case.get("root"), out, tuple(feats) + tuple(sorted(set(case.get("alike", ())))))
 
 
 def _av_unmodelled(tree):
@@ -1505,10 +1790,14 @@ def histogram(cases, observed):
         return {"table_error": _TABLE_ERROR}
     t = tab()
     h = {"by_kind": {}, "by_module": {}, "outcome": {}, "features": {}, "classes_covered": 0, "impl": {},
-         "entity_forms": {}, "doc_forms": {}}
+         "entity_forms": {}, "doc_forms": {}, "alike_names": {}}
     seen = set()
     for c, o in zip(cases, observed):
         kind = c["kind"] + (":" + c["mode"] if c["kind"] == "rt" else (":" + c.get("root", "") if c["kind"] == "doc" else ""))
+        if c["kind"] == "doc" and "alike" in c:
+            kind = "doc:alike"
+        for a in c.get("alike", ()):        # look-alike names: 'attr|elem namespace-variant/local-variant'
+            h["alike_names"][a] = h["alike_names"].get(a, 0) + 1
         h["by_kind"][kind] = h["by_kind"].get(kind, 0) + 1
         mod = t.classes[c["c"]].name.rsplit(".", 1)[0]
         h["by_module"][mod] = h["by_module"].get(mod, 0) + 1
